@@ -146,6 +146,17 @@ def run_check(prop, tier, seed, scratch, t0, args):
                 violations.append((name, r, info))
             else:
                 inconclusive.append("%s: counterexample does not reproduce natively (%s)" % (name, info))
+        elif r.status == "unwind":
+            # A loop that needs more iterations than the data-derived bound: either the bound in
+            # /verif is too small (inconclusive) or the loop really does not terminate on some input.
+            # The latter is decided natively: replay the model's values under a watchdog.
+            ok, info = replay.confirm(ws, r, meta[name], scratch, hang_only=True)
+            if ok:
+                traces_validated += 1
+                violations.append((name, r, info))
+            else:
+                inconclusive.append("%s: unwinding assertion failed and the model does not hang natively: bound too small? %s"
+                                    % (name, r.detail[:160]))
         else:
             inconclusive.append("%s: %s %s" % (name, r.status, r.detail[:200]))
 
@@ -261,4 +272,13 @@ def write_evidence(prop, tier, seed, ws, results, meta, violations, inconclusive
 
 
 if __name__ == "__main__":
-    sys.exit(main())
+    try:
+        rc = main()
+    except SystemExit as e:
+        rc = e.code if isinstance(e.code, int) else 2
+    except BaseException as e:  # never let a crash of the machinery look like a verdict
+        import traceback
+        traceback.print_exc()
+        print("ERROR internal failure of the checking machinery: %r" % (e,))
+        rc = 2
+    sys.exit(rc)
